@@ -437,7 +437,11 @@ Definition meta_proc_names (cfg : config) : list string :=
       "wamp.subscription.get"; "wamp.subscription.list_subscribers"; "wamp.subscription.count_suscribers";
       "wamp.subscription.get_events"; "wamp.session.add_testament"; "wamp.session.flush_testaments"].
 
-Definition meta_session : session := mkSession meta_id true [] [("authrole", vstr "trusted")] 0.
+(** the meta session announces payload passthru mode as a publisher: it
+    publishes the testaments of departed clients with THEIR publish options *)
+Definition meta_hello : dict :=
+  [("roles", VDict [("publisher", VDict [("features", VDict [(f_ppt, VBool true)])])])].
+Definition meta_session : session := mkSession meta_id true meta_hello [("authrole", vstr "trusted")] 0.
 
 Definition init_realm (cfg : config) : realm :=
   let b := preinit_history empty_broker (c_hist cfg) in
